@@ -47,8 +47,11 @@ def call_real(inp, animals):
     K = int(inp.get("mag", 1))
     if K != 1:
         H, W, s, sigma, pts = H * K, W * K, s * K, sigma * K, pts * K
-    edge_inds = torch.tensor(inp["edges"], dtype=torch.int64).reshape(-1, 2)
+    # edge indices as an integer tensor, or as the float32 tensor the repository's own datasets pass (torch.Tensor(edge_inds)),
+    # or int32 - chosen by the scene, so that replays agree
     E = len(inp["edges"])
+    dt = (torch.int64, torch.float32, torch.int32)[(H + W + E + len(animals)) % 3]
+    edge_inds = torch.tensor(inp["edges"], dtype=dt).reshape(-1, 2)
     if api == "pipe":
         # the DataPipe consumes a STREAM: the judged example alone (spos 0), first of two (1), or second after an
         # example of another image size and other keypoints (2)
